@@ -9,7 +9,9 @@ package util
 //   pods   name -> {already, fails}     already: IsPodEvicted answers true; fails: Evict answers false
 //   tasks  [{tt, need{res:n}, list[names], kind:"list", c}]   in the order handed to the loop;
 //          c: pod -> resource -> amount returned by the task's GetPodResourceFunc (absent pod: nil)
-//          (tasks with the same target type share one table: "same content")
+//          (tasks with the same target type describe the same content: their tables are projections of ONE table per
+//          target onto the resource names the task knows - as BECPUEvict (batch-cpu only) and CPUAllocatableEvict
+//          (batch-cpu and mid-cpu) do for the shared target podResourceRequest)
 // Events: seen{pod} (IsPodEvicted answered true), evict{pod, task, ok}, ret{released, newly}.
 
 import (
@@ -38,6 +40,26 @@ type c11Task struct {
 	List []string                    `json:"list"`
 	Kind string                      `json:"kind"`
 	C    map[string]map[string]int64 `json:"c"`
+	// generation only: the resource names this task's function knows (nil = all of the target's table)
+	Res []string `json:"-"`
+}
+
+// the task's view of the target's table: the entries of the resource names it knows
+func c11Project(tbl map[string]map[string]int64, res []string) map[string]map[string]int64 {
+	if res == nil || tbl == nil {
+		return tbl
+	}
+	out := map[string]map[string]int64{}
+	for pod, m := range tbl {
+		pm := map[string]int64{}
+		for _, r := range res {
+			if v, ok := m[r]; ok {
+				pm[r] = v
+			}
+		}
+		out[pod] = pm
+	}
+	return out
 }
 
 type c11Case struct {
@@ -123,7 +145,7 @@ func c11Run(rec *vu.Recorder, cs *c11Case) {
 		}
 		cs.Tasks[i].Kind = "list"
 		if cs.Tasks[i].C == nil {
-			cs.Tasks[i].C = cs.C[cs.Tasks[i].TT]
+			cs.Tasks[i].C = c11Project(cs.C[cs.Tasks[i].TT], cs.Tasks[i].Res)
 		}
 		if cs.Tasks[i].C == nil {
 			cs.Tasks[i].C = map[string]map[string]int64{}
@@ -314,6 +336,61 @@ func c11EnumTwoTasks(rec *vu.Recorder, n int, cvals []int64, needs []int64, same
 	}
 }
 
+// two simultaneous tasks that SHARE a target but know different resource names, n pods each either a batch pod
+// (batch-cpu x) or a mid pod (mid-cpu y): task 1 (the best-effort strategy's view) knows batch-cpu only and lists the
+// batch pods, task 2 (the allocatable strategy's view) knows both and lists all pods in any order.  A 1-in-nth sample
+// (seed-dependent) of the enumeration.
+func c11EnumTwoProj(rec *vu.Recorder, n int, seed int64, nth int) {
+	names := c11Names[:n]
+	var perms [][]string
+	for _, l := range c11Perms(names) {
+		if len(l) == n {
+			perms = append(perms, l)
+		}
+	}
+	total := 1
+	for i := 0; i < n; i++ {
+		total *= 4
+	}
+	k := int(seed % int64(nth))
+	if k < 0 {
+		k += nth
+	}
+	for code := 0; code < total; code++ {
+		for _, l2 := range perms {
+			for _, n1 := range []int64{1, 2} {
+				for _, nb := range []int64{0, 2} {
+					for _, nm := range []int64{1, 2, 3} {
+						k++
+						if k%nth != 0 {
+							continue
+						}
+						cs := &c11Case{Pods: map[string]c11Pod{}, C: map[string]map[string]map[string]int64{c11Req: {}}}
+						x := code
+						var l1 []string
+						for i := 0; i < n; i++ {
+							d := x % 4
+							x /= 4
+							cs.Pods[names[i]] = c11Pod{}
+							if d < 2 {
+								cs.C[c11Req][names[i]] = map[string]int64{c11BCPU: int64(1 + d)}
+								l1 = append(l1, names[i])
+							} else {
+								cs.C[c11Req][names[i]] = map[string]int64{c11BCPU: 0, c11MCPU: int64(d - 1)}
+							}
+						}
+						cs.Tasks = []c11Task{
+							{TT: c11Req, Need: map[string]int64{c11BCPU: n1}, List: l1, Res: []string{c11BCPU}},
+							{TT: c11Req, Need: map[string]int64{c11BCPU: nb, c11MCPU: nm}, List: l2, Res: []string{c11BCPU, c11MCPU}},
+						}
+						c11Run(rec, cs)
+					}
+				}
+			}
+		}
+	}
+}
+
 // seeded random cases: 1-3 tasks, 1-2 resources per target, 0-6 pods, larger magnitudes
 func c11Random(rng *rand.Rand) *c11Case {
 	type tgt struct {
@@ -375,7 +452,7 @@ func c11Random(rng *rand.Rand) *c11Case {
 				list = append(list, names[j])
 			}
 		}
-		cs.Tasks = append(cs.Tasks, c11Task{TT: tg.tt, Need: need, List: list})
+		cs.Tasks = append(cs.Tasks, c11Task{TT: tg.tt, Need: need, List: list, Res: tg.res})
 	}
 	return cs
 }
@@ -409,11 +486,13 @@ func TestVerifC11(t *testing.T) {
 		c11EnumTwoTasks(rec, 2, c012, []int64{0, 1, 2, 3}, true, true)
 		c11EnumTwoTasks(rec, 2, []int64{0, 1}, []int64{0, 1, 2}, false, true)
 		c11EnumTwoTasks(rec, 3, []int64{0, 1}, []int64{1, 2}, true, false)
+		c11EnumTwoProj(rec, 3, vu.Seed(), 1)
 	} else {
 		c11EnumOne(rec, 3, c012, []int64{0, 1, 2, 3, 4})
 		c11EnumTwoRes(rec, 2, pairs, []int64{0, 1, 2}, true)
 		c11EnumTwoTasks(rec, 2, []int64{0, 1}, []int64{0, 1, 2}, true, true)
 		c11EnumTwoTasks(rec, 2, []int64{0, 1}, []int64{1, 2}, false, false)
+		c11EnumTwoProj(rec, 3, vu.Seed(), 3)
 	}
 	enum := rec.Segments()
 	n := 2000
